@@ -112,6 +112,10 @@ def gen_plan(seed, tier):
       cfg["w2_low"] = [r.pick([0.25, 0.5, 0.75]) for _ in range(2)]
   elif w == "w3":
     cfg["w3_nondefault"] = Rng(mix(seed, "w3nd")).chance(0.3)
+    rl = Rng(mix(seed, "w3late"))
+    if rl.chance(0.35):
+      cfg["w3_late"] = rl.randint(1, 2)
+      cfg["w3_late_at"] = rl.randint(1, 4)
     for i in range(r.randint(1, 3)):
       steps.append({"thread": i, "sections": r.randint(1, 2),
                     "nested": r.chance(0.4), "inner": r.randint(0, 3),
@@ -611,6 +615,7 @@ def _w3(sim, world, eng, plan):
   events = []     # (seq, kind, who)
   done = [0]
   nthreads = 0
+  late = cfg.get("w3_late")
 
   class Coop(R.Task):
     def __init__(self_, name, n):
@@ -621,6 +626,12 @@ def _w3(sim, world, eng, plan):
       for i in range(self_.n):
         events.append((world.next_seq(), "step", self_.nm))
         sim.ev("step", self_.nm, i)
+        if late:
+          # a step that takes a while: other threads get to act while the
+          # scheduler thread is in the middle of it
+          for _ in range(2):
+            eng.preempt()
+            events.append((world.next_seq(), "step", self_.nm))
         yield 0
   tasks = [Coop("c%d" % i, cfg.get("coop_steps", 3))
            for i in range(cfg.get("coop_tasks", 1))]
@@ -665,13 +676,39 @@ def _w3(sim, world, eng, plan):
       done[0] += 1
     eng.spawn(body, who)
 
+  nlate = [0]
+  if late:
+    # threads that ask for a section once the scheduler has been told to
+    # quit (it may still be in the middle of a task's step, and goes on to
+    # finish it): whether they are ever let in is the scheduler's business,
+    # but if they are, the section is a section
+    sim.probes["section_asked_for_after_quit"] += 1
+
+    def late_body(who):
+      eng.block(lambda: sched._hasQuit, None)
+      with sched.synchronized():
+        nlate[0] += 1
+        events.append((world.next_seq(), "enter", who))
+        for _ in range(3):
+          eng.preempt()
+        events.append((world.next_seq(), "exit", who))
+    for j in range(late):
+      eng.spawn(lambda who="late%d" % j: late_body(who),
+                "late%d" % j).may_hang = True
+
   def quiet():
-    return done[0] >= nthreads and \
-        sum(1 for e in events if e[1] == "step") >= \
-        sum(t.n for t in tasks)
+    nsteps = sum(1 for e in events if e[1] == "step")
+    total = sum(t.n for t in tasks) * (3 if late else 1)
+    if late:
+      # (the quit comes while steps are still being run)
+      return done[0] >= nthreads and nsteps >= max(1, late_at * total // 4)
+    return done[0] >= nthreads and nsteps >= total
+  late_at = cfg.get("w3_late_at", 4)
   res = _controller(sim, world, eng, quiet, timeout=20.0)
   fin = eng.run()
   _finish_check(sim, world, eng, fin, "w3")
+  if nlate[0]:
+    sim.probes["section_entered_after_quit"] += 1
   inside = None
   for seq, kind, who in events:
     if kind == "enter":
@@ -685,7 +722,7 @@ def _w3(sim, world, eng, plan):
       raise Violation("w3/task-ran-in-section", "cooperative task %s ran a "
                       "step while thread %s was inside the scheduler's "
                       "synchronized section" % (who, inside))
-  n_enter = sum(1 for e in events if e[1] == "enter")
+  n_enter = sum(1 for e in events if e[1] == "enter") - nlate[0]
   want = sum(st["sections"] for st in plan["steps"] if "thread" in st)
   if n_enter != want or not res.get("ok"):
     raise Violation("w3/section-not-entered", "%d of %d synchronized sections "
